@@ -41,7 +41,112 @@ fn data_of(spec: &Value, boundary_hint: &str) -> Vec<u8> {
     }
 }
 
+/// Writer that fails after a number of octets (a connection that breaks during the upload).
+struct BreakingWriter(usize);
+impl std::io::Write for BreakingWriter {
+    fn write(&mut self, b: &[u8]) -> std::io::Result<usize> {
+        if self.0 == 0 {
+            return Err(std::io::ErrorKind::BrokenPipe.into());
+        }
+        let n = b.len().min(self.0);
+        self.0 -= n;
+        Ok(n)
+    }
+    fn flush(&mut self) -> std::io::Result<()> {
+        Ok(())
+    }
+}
+
+fn event_for(id: &str, added: usize, body: &[u8], boundary: Option<String>, want: Vec<mp::Part>, datas: &[Vec<u8>], texts: &[(String, String)], framing_ok: bool) -> Value {
+    let mut ev = json!({"ev":"mpart","id":id,"added":added,"res":"ok","kind":"","decoded":0,"matched":0,"closed":false,"boundaryInData":false,
+        "framingOk":framing_ok,"decodeError":"-","bodyLen":body.len(),"nchunks":0,"preamble":0,"epilogue":0});
+    match boundary {
+        None => ev["decodeError"] = json!("no boundary"),
+        Some(bd) => {
+            let d = mp::decode(body, &bd);
+            ev["decoded"] = json!(d.parts.len());
+            ev["closed"] = json!(d.closed);
+            if let Some(e) = d.error {
+                ev["decodeError"] = json!(e);
+            }
+            let mut want = want;
+            let mut matched = 0;
+            for p in &d.parts {
+                if let Some(i) = want.iter().position(|wp| wp == p) {
+                    want.remove(i);
+                    matched += 1;
+                }
+            }
+            ev["matched"] = json!(matched);
+            let needle = format!("--{}", bd).into_bytes();
+            ev["boundaryInData"] = json!(texts.iter().any(|(_, v)| v.as_bytes().windows(needle.len()).any(|x| x == &needle[..]))
+                || datas.iter().any(|dd| dd.windows(needle.len().max(1)).any(|x| x == &needle[..])));
+        }
+    }
+    ev
+}
+
+/// The body object is written twice (a failed first attempt, then again), and two forms are built one after the
+/// other on the same thread with the second one's data naming the first one's boundary.
+fn run_special(sc: &Value) -> Vec<String> {
+    use attohttpc::body::Body;
+    let mode = gs(sc, "mode");
+    let data_a = payload("bytes", 3, gu(sc, "len").max(1));
+    let res = catch_unwind(AssertUnwindSafe(|| -> Result<Value, String> {
+        match mode {
+            "retry_after_fault" => {
+                let mut form = attohttpc::MultipartBuilder::new()
+                    .with_text("t", "v")
+                    .with_file(attohttpc::MultipartFile::new("small", b"tiny").with_filename("s.bin"))
+                    .with_file(attohttpc::MultipartFile::new("big", &data_a).with_filename("b.bin"))
+                    .build()
+                    .map_err(|e| err_kind(&e))?;
+                let ct = form.content_type().map_err(|e| e.to_string())?.unwrap_or_default();
+                // first attempt: the connection breaks after `breakAt` octets
+                let _ = form.write(BreakingWriter(gu(sc, "breakAt")));
+                let mut second = Vec::new();
+                form.write(&mut second).map_err(|e| format!("Io:{:?}", e.kind()))?;
+                let want = vec![
+                    mp::Part { name: "t".into(), filename: None, content_type: None, data: b"v".to_vec() },
+                    mp::Part { name: "small".into(), filename: Some("s.bin".into()), content_type: Some("application/octet-stream".into()), data: b"tiny".to_vec() },
+                    mp::Part { name: "big".into(), filename: Some("b.bin".into()), content_type: Some("application/octet-stream".into()), data: data_a.clone() },
+                ];
+                Ok(event_for(gs(sc, "id"), 3, &second, mp::boundary_of(&ct), want, &[data_a.clone()], &[("t".into(), "v".into())], true))
+            }
+            _ => {
+                // two forms on one thread
+                let mut f1 = attohttpc::MultipartBuilder::new().with_text("a", "1").build().map_err(|e| err_kind(&e))?;
+                let ct1 = f1.content_type().map_err(|e| e.to_string())?.unwrap_or_default();
+                let b1 = mp::boundary_of(&ct1).unwrap_or_default();
+                let evil = format!("x\r\n--{}\r\nContent-Disposition: form-data; name=\"role\"\r\n\r\nadmin\r\n--{}--\r\n", b1, b1).into_bytes();
+                let mut f2 = attohttpc::MultipartBuilder::new()
+                    .with_text("role", "guest")
+                    .with_file(attohttpc::MultipartFile::new("f", &evil).with_filename("e.bin"))
+                    .build()
+                    .map_err(|e| err_kind(&e))?;
+                let ct2 = f2.content_type().map_err(|e| e.to_string())?.unwrap_or_default();
+                let mut body = Vec::new();
+                f2.write(&mut body).map_err(|e| format!("Io:{:?}", e.kind()))?;
+                let want = vec![
+                    mp::Part { name: "role".into(), filename: None, content_type: None, data: b"guest".to_vec() },
+                    mp::Part { name: "f".into(), filename: Some("e.bin".into()), content_type: Some("application/octet-stream".into()), data: evil.clone() },
+                ];
+                Ok(event_for(gs(sc, "id"), 2, &body, mp::boundary_of(&ct2), want, &[evil.clone()], &[("role".into(), "guest".into())], true))
+            }
+        }
+    }));
+    let ev = match res {
+        Ok(Ok(ev)) => ev,
+        Ok(Err(k)) => json!({"ev":"mpart","id":gs(sc,"id"),"added":1,"res":"err","kind":k,"decoded":0,"matched":0,"closed":false,"boundaryInData":false,"framingOk":false,"decodeError":"-"}),
+        Err(p) => json!({"ev":"mpart","id":gs(sc,"id"),"added":1,"res":"panic","kind":panic_msg(&p),"decoded":0,"matched":0,"closed":false,"boundaryInData":false,"framingOk":false,"decodeError":"-"}),
+    };
+    vec![ev.to_string()]
+}
+
 pub fn run(sc: &Value) -> Vec<String> {
+    if !gs(sc, "mode").is_empty() {
+        return run_special(sc);
+    }
     let texts: Vec<(String, String)> = ga(sc, "texts").iter().map(|t| (t[0].as_str().unwrap().to_string(), t[1].as_str().unwrap().to_string())).collect();
     let files: Vec<Value> = ga(sc, "files").to_vec();
     let datas: Vec<Vec<u8>> = files.iter().map(|f| data_of(f, "\r\n--")).collect();
@@ -161,6 +266,13 @@ pub fn generate(seed: u64, tier: &str) -> Vec<Value> {
                 push(&mut out, texts, files);
             }
         }
+    }
+    // a body written again after a failed first attempt; two forms built one after the other on one thread
+    for (i, (len, brk)) in [(100usize, 0usize), (100, 50), (20000, 10000), (20000, 8192), (70000, 1), (70000, 69000)].iter().enumerate() {
+        out.push(json!({"id":format!("mp-retry-{}", i),"mode":"retry_after_fault","len":len,"breakAt":brk}));
+    }
+    for i in 0..4 {
+        out.push(json!({"id":format!("mp-two-{}", i),"mode":"two_forms"}));
     }
     // every offset of a part boundary modulo the 8 KiB copy buffer: sweep the first (= last emitted) file's size
     let sweeps: Vec<(usize, usize)> = if thorough { vec![(0, 8192 + 600), (16000, 16800)] } else { vec![(7600, 8300), (16050, 16500)] };
